@@ -27,7 +27,7 @@ func init() {
 	register(&Prop{
 		ID:    "C08",
 		Level: "exploration",
-		Rule: "seed-generated word-list inputs weighted towards lists holding a word together with its capitalised twin (with and without genuinely uncapitalisable neighbours), pre-capitalised-only and caseless-only lists, x all five schemes x constant/preset/constructed/user-written separators x lengths 1-9. Each input is constructed 64 times in-process (same slice, permutations, repetitions), Entropy() is called repeatedly on each, and the same inputs are evaluated in 4 fresh child processes; all values for one (word set, recipe) must be bit-identical and equal the documented formula. evaluations = Entropy() calls; distinct_nontrivial = distinct (word set, recipe) pairs whose list contains a title-case twin or an uncapitalisable word",
+		Rule:  "seed-generated word-list inputs weighted towards lists holding a word together with its capitalised twin (with and without genuinely uncapitalisable neighbours), pre-capitalised-only and caseless-only lists, x all five schemes x constant/preset/constructed/user-written separators x lengths 1-9. Each input is constructed 64 times in-process (same slice, permutations, repetitions), Entropy() is called repeatedly on each, and the same inputs are evaluated in 4 fresh child processes; all values for one (word set, recipe) must be bit-identical and equal the documented formula. evaluations = Entropy() calls; distinct_nontrivial = distinct (word set, recipe) pairs whose list contains a title-case twin or an uncapitalisable word",
 		Assumptions: []string{
 			"formula: L*log2(kept) + [every kept word changes under title-casing]*(L for random, log2 L for one) + (L-1)*sepEnt, kept words from the reference normalisation, sepEnt = the value the separator function itself declares (observed by calling it)",
 			"tolerance for the formula: 4 float32 ulps of max(|E|,1) (three float32 operations in the published value); determinism is bit-exact",
